@@ -219,6 +219,9 @@ class FakeSock(object):
       self.conn.activity += 1
     if net.io_fault is not None and net.io_fault[0] == idx:
       return net.io_fault[1]
+    faults = getattr(net, 'io_faults', None)
+    if faults:
+      return faults.get(idx)
     return None
 
   def _wait(self, c):
